@@ -83,6 +83,8 @@ pub struct Expander {
     /// reversed: the last element is the next token
     input: Vec<(Tok, u8)>,
     pub delivered: Vec<Delivered>,
+    /// for every delivered token: how many macro expansions had happened before it was delivered
+    pub delivered_after_events: Vec<usize>,
     pub events: Vec<MacroEvent>,
     pub rule: NoexpandRule,
     pub trim: TrimRule,
@@ -105,6 +107,7 @@ impl Expander {
             meanings,
             input: vec![],
             delivered: vec![],
+            delivered_after_events: vec![],
             events: vec![],
             rule,
             trim: TrimRule::Tex,
@@ -249,6 +252,7 @@ impl Expander {
                     self.marker_mattered += 1;
                 }
                 self.delivered.push(Delivered::Unexpanded(t));
+                self.delivered_after_events.push(self.events.len());
                 continue;
             }
             match self.meaning(&t).cloned() {
@@ -297,7 +301,10 @@ impl Expander {
                     }
                 }
                 Some(Meaning::Relax) => {}
-                _ => self.delivered.push(Delivered::Tok(t)),
+                _ => {
+                    self.delivered.push(Delivered::Tok(t));
+                    self.delivered_after_events.push(self.events.len());
+                }
             }
         }
         Ok(())
@@ -327,6 +334,26 @@ pub fn delivered_text(d: &[Delivered]) -> Option<String> {
         }
     }
     Some(s)
+}
+
+/// Like `delivered_text`, but stops at a `}` that arrives at group depth 0: returns the text
+/// delivered before it and the index of that token (the real VM stops there with the fatal error
+/// "there is no group to end").
+pub fn delivered_text_until_unmatched(d: &[Delivered]) -> (String, Option<usize>) {
+    let mut depth = 0i64;
+    for (i, x) in d.iter().enumerate() {
+        match x {
+            Delivered::Tok(Tok::Begin) => depth += 1,
+            Delivered::Tok(Tok::End) => {
+                depth -= 1;
+                if depth < 0 {
+                    return (delivered_text(&d[..i]).unwrap_or_default(), Some(i));
+                }
+            }
+            _ => {}
+        }
+    }
+    (delivered_text(d).unwrap_or_default(), None)
 }
 
 /// Token form of what was delivered (for calibration against token-list expectations).
